@@ -581,7 +581,8 @@ MUTANTS = [
     ('tt2-capacity-adjust', 'nfc.tag.tt2', "capacity -= 4 if capacity > 256 else 2", "capacity -= 2 if capacity > 256 else 2", 'C01-R3'),
     ('tt1-capacity-threshold', 'nfc.tag.tt1', "capacity -= 4 if capacity > 256 else 2", "capacity -= 4 if capacity > 260 else 2", 'C01-R3'),
     ('tt2-value-offset', 'nfc.tag.tt2', "offset += 2 if len(data) < 255 else 4", "offset += 2 if len(data) < 255 else 3", 'C01-R3'),
-    ('tt3-write-stride', 'nfc.tag.tt3', "for i in range(1, last_block_number, attributes['nbw']):", "for i in range(1, last_block_number, attributes['nbw'] + 1):", 'C01-R4'),
+    ('tt3-write-stride', 'nfc.tag.tt3', "for i in range(1, last_block_number, nbw):", "for i in range(1, last_block_number, nbw + 1):", 'C01-R4'),
+    ('tt3-read-stride-source', 'nfc.tag.tt3', "nbr = min(attributes['nbr'], 15)", "nbr = min(attributes['nbw'], 15)", 'C01-R4'),
     ('tt3-write-slice', 'nfc.tag.tt3', "block_data = data[(i-1)*16:(last_block-1)*16]", "block_data = data[(i-1)*16:last_block*16]", 'C01-R4'),
     ('tt3-read-last-block', 'nfc.tag.tt3', "last_block_number = 1 + (attributes['ln'] + 15) // 16", "last_block_number = 1 + attributes['ln'] // 16", 'C01-R4'),
     ('tt3-ln-padded', 'nfc.tag.tt3', """            attributes['ln'] = len(data)  # because we may need to pad zeros
